@@ -6,11 +6,12 @@ VARIABLES shape, stage
 svars == <<vars, shape, stage>>
 
 SInit ==
-  \E s \in ShapeSet :
-     LET a == AbsOf(s) IN
-       /\ shape = s /\ stage = 0
-       /\ nalloc = a.nalloc /\ nodes = a.nodes /\ H = a.H /\ E = a.E /\ armed = a.armed
-       /\ P = a.P /\ M = a.M /\ obs = [op |-> "init"]
+  \E f \in Families : \E r \in RootSetsOf(f), e \in EdgeSetsOf(f), w \in RowSeqsOf(f), m \in MapsOf(f) :
+     LET s == Shape(f, r, e, w, m)
+         a == AbsOf(s)
+     IN /\ shape = s /\ stage = 0
+        /\ nalloc = a.nalloc /\ nodes = a.nodes /\ H = a.H /\ E = a.E /\ armed = a.armed
+        /\ P = a.P /\ M = a.M /\ obs = [op |-> "init"]
 SNext == stage = 0 /\ Collect /\ stage' = 1 /\ UNCHANGED shape
 SSpec == SInit /\ [][SNext]_svars
 
